@@ -43,6 +43,8 @@ func runC19(c *Ctx) {
 	checkNoSendBeforeHandover(c, "R19.9")
 	checkNoValidationBetweenPreRunAndRun(c)
 	checkOpenEventsRelayed(c)
+	checkSignalsCaught(c, "R19.12")
+	checkServerStoppedBeforeLockReleased(c, "R19.13")
 	isLoad := func(n string) bool {
 		return n == "commands/execenv.LoadBackend" || n == "commands/execenv.LoadBackendEnsureUser"
 	}
